@@ -293,6 +293,14 @@ func c13Commands(sym string, i int) [][]string {
 		return [][]string{{"SET", "k" + p, markerLike}}
 	case "markerkey":
 		return [][]string{{"SET", "user:marker:{x}" + p, "v" + p}}
+	case "nsval":
+		// foreign stand-alone commands whose NON-key arguments (value, list element, set member, field value)
+		// are names from the reserved bookkeeping namespaces: a client is free to store such bytes
+		return [][]string{{"SET", "kn" + p, "redis-gunyu-checkpoint-hash"}, {"RPUSH", "ln" + p, "redis-gunyu-bisync:redis-gunyu-checkpoint:marker:{slot-0}"},
+			{"SADD", "sn" + p, "redis-gunyu-bisync:x"}, {"HSET", "hn" + p, "f", "redis-gunyu-checkpoint"}}
+	case "nsdel":
+		// a foreign multi-key DEL whose LATER key lies next to (not in) the reserved namespace
+		return [][]string{{"SET", "kq" + p, "1"}, {"SET", "redis-gunyu-bisyncx" + p, "1"}, {"DEL", "kq" + p, "redis-gunyu-bisyncx" + p}}
 	case "txnmarker":
 		// a foreign transaction: ordinary first command, a later command carries marker-like bytes
 		return [][]string{{"MULTI"}, {"SET", "td" + p, "1"}, {"SET", "te:marker:{x}" + p, markerLike}, {"EXEC"}}
@@ -889,7 +897,7 @@ func runC13(t *testing.T, rep *mc.Reporter) {
 		rep.Exec(scn, rp.Choices, c13Exec(t, scn, mc.NewChooser(rp.Choices)))
 		return
 	}
-	full := []string{"set", "setex", "delmiss", "hset", "txn", "txn1", "markerval", "markerkey", "txnmarker", "txnmarkerfirst", "expire", "otherdb"}
+	full := []string{"set", "setex", "delmiss", "hset", "txn", "txn1", "markerval", "markerkey", "nsval", "nsdel", "txnmarker", "txnmarkerfirst", "expire", "otherdb"}
 	reduced := []string{"set", "setex", "txn", "txn1", "txnmarkerfirst", "otherdb"}
 	modes := []biCfg{{"sync", 2}, {"pipeline", 2}, {"parallel", 2}}
 	bound := 1
